@@ -29,7 +29,7 @@ PROPS = {
             "assumed contract: i64::try_from(u64) succeeds iff the value fits (vstd leaves this pair unspecified)",
             "assumed (std::fmt, rule R13): format! writes the literal pieces verbatim and `{:0N}` as the zero-padded decimal; of a non-negative integer below 10^N that is exactly N digits (axiom_pad_width)",
             "assumed: instants are not before 1970 and within 2^48 seconds (the unwraps in to_datetime panic otherwise); rule S1 stand-in for `self.duration_since(SystemTime::UNIX_EPOCH)`",
-            "LogFile::create's file name and write_jsonl's time member use the same fields with their own format strings: write_jsonl's is under contract in unit jsonl (C17); LogFile::create's only in the bounded stand-in c16",
+            "LogFile::create's file name and write_jsonl's time member use the same fields with their own format strings: write_jsonl's is under contract in unit jsonl (C17); LogFile::create's naming statement is a region of unit timefmt (rule S1: `path_str.push(..)` -> os_push, assumed to append the text)",
         ],
         "not_covered": [
             "LogFile::create outside its naming statement (the loop over attempt numbers, create_new)",
